@@ -15,4 +15,4 @@ if [ "${MUTANT_TESTS:-0}" = 1 ]; then
 fi
 out=$(cd /verif && VERIF_REPO="$WT" ./check "$ID" "$TIER" 2>&1); rc=$?
 echo "$out" | grep -E "VIOLATION|KNOWN-FINDING|INFRA|OK property|FAIL" | head -6
-if [ $rc -eq 1 ] && echo "$out" | grep -q "^VIOLATION property=$ID"; then echo "CAUGHT $(basename $PATCH) by $ID"; else echo "MISSED $(basename $PATCH) by $ID (rc=$rc)"; fi
+if [ $rc -eq 1 ] && echo "$out" | grep -q "^VIOLATION property=${ID%U}"; then echo "CAUGHT $(basename $PATCH) by $ID"; else echo "MISSED $(basename $PATCH) by $ID (rc=$rc)"; fi
